@@ -21,7 +21,8 @@ def tup(ks):
 
 def ghdr(target, gamma, kappa, t0, tunes=True, hasmm=False, rtol="3e-4", atol="3e-6", **kw):
     h = {"g": {"target": fstr(np.float32(target)), "gamma": fstr(np.float32(gamma)),
-               "kappa": fstr(np.float32(kappa)), "t0": int(t0)},
+               # (t0 is a positive real in Hoffman & Gelman / Stan: whole numbers are logged as integers)
+               "kappa": fstr(np.float32(kappa)), "t0": int(t0) if float(t0).is_integer() else fstr(np.float32(t0))},
          "tunes": bool(tunes), "hasmm": bool(hasmm), "rtol": rtol, "atol": atol}
     h.update(kw)
     return h
@@ -32,7 +33,7 @@ def direct_trace(rng, n_epochs=3, max_len=12):
     target = rng.choice([0.234, 0.5, 0.65, 0.8, 0.9])
     gamma = rng.choice([0.05, 0.05, 0.1, 0.5, 1.0])
     kappa = rng.choice([0.75, 0.75, 0.6, 0.9])
-    t0 = rng.choice([10, 10, 1, 3, 25])
+    t0 = rng.choice([10, 10, 1, 3, 25, 2.75, 0.5])
     eps0 = rng.choice([1e-3, 0.01, 0.1, 1.0, 3.0, 25.0])
     ks = RWKernelState(step_size=jnp.float32(eps0))
     ev = [{"ev": "init_state", "post": tup(ks)}]
@@ -128,6 +129,9 @@ def make_kernel(name, consts, late=False):
         return gs.IWLSKernel(["x"], initial_step_size=eps0, **kw), True, False
     if name == "mh_on":
         return gs.MHKernel(["y"], asym_proposal_for("y"), initial_step_size=eps0, da_tune_step_size=True, **kw), True, False
+    if name == "mh_on_np":      # tuning switched on by a truthy flag that is not the object True (a NumPy comparison)
+        flag = np.asarray([1, 0])[0] == 1
+        return gs.MHKernel(["y"], asym_proposal_for("y"), initial_step_size=eps0, da_tune_step_size=flag, **kw), True, False
     if name == "mh_off":
         return gs.MHKernel(["z"], asym_proposal_for("z"), initial_step_size=eps0, da_tune_step_size=False, **kw), False, False
     if name == "hmc":
